@@ -359,6 +359,18 @@ def g_203(ch, pool, ctx, opts, depth):
         out = [203000 + y] + defs + [203255] + [op] + use[:k] + [cancel] + use[k:]
     elif form == 'def_under_op':
         out = [op, 203000 + y] + defs + [203255, cancel] + use
+    elif not lead and ch.bool(1, 3):
+        # two definition lists with no cancellation between them: the values of the first stay in force
+        d2 = _pick_num(ch, pool, ctx, 1)
+        y2 = ch.weighted([(3, ch.int(4, 16)), (1, 2), (1, 24)])
+        _reserve(ctx, 4)
+        if not ctx.in_rep:
+            ctx.min_plain += 2
+        between = [ch.choice(defs)] if ch.bool() else []
+        if between and not ctx.in_rep:
+            ctx.min_plain += 1
+        out = [203000 + y] + defs + [203255] + between + [203000 + y2, d2, 203255] + use + [d2]
+        ctx.features.add('203_two_definition_lists')
     else:
         out = [203000 + y] + defs + [203255] + use
     out = lead + out
